@@ -328,7 +328,8 @@ func vxCycConfigs(prop string) []vxCfg {
 	var out []vxCfg
 	limits := [][2]int{{-1, -1}, {0, 255}, {0, 100}, {50, 255}, {50, 100}, {100, 100}, {0, 0}, {255, 255}, {250, 255}}
 	maps := []string{"identity", "readme", "quant5", "three", "compress"}
-	algos := []string{"direct", "direct:1", "direct:10", "direct:255", "pid", "pid:1,0,0", "pid:0,0,1e6", "pid:-0.3,-0.02,0"}
+	// PID: default, single-term, huge derivative, negative, and extreme finite gains of opposite sign (P*err = +Inf, I*integral = -Inf -> NaN)
+	algos := []string{"direct", "direct:1", "direct:10", "direct:255", "pid", "pid:1,0,0", "pid:0,0,1e6", "pid:-0.3,-0.02,0", "pid:1.7e308,-1.7e308,0", "pid:1e308,1e308,1e308"}
 	nstops := []bool{false, true}
 	if prop == "C02" {
 		nstops = []bool{true}
